@@ -166,8 +166,10 @@ class RechunkCopy(CopyOpSpec):
     name = f"{OPS}:_rechunk[regular]"
     quick_props = ("C05", "C14")
 
+    not_covered = ("rank 2: does not finish within an hour of nonlinear solving (the copy logic is per axis; rank 1 is decided)",)
+
     def configs(self, tier):
-        return [dict(ndim=nd) for nd in ((1,) if tier == "quick" else (1, 2))]
+        return [dict(ndim=1)]
 
     def setup(self, c):
         nd = c.cfg["ndim"]
@@ -216,8 +218,10 @@ class MergeChunks(CopyOpSpec):
     target = f"{OPS}:merge_chunks"
     quick_props = ("C01",)
 
+    not_covered = ("rank 2: does not finish within an hour of nonlinear solving (rank 1 is decided)",)
+
     def configs(self, tier):
-        return [dict(ndim=nd) for nd in ((1,) if tier == "quick" else (1, 2))]
+        return [dict(ndim=1)]
 
     def setup(self, c):
         nd = c.cfg["ndim"]
